@@ -129,7 +129,7 @@ Definition escaped_path (path raw : bstr) : bstr :=
   else if beq path [star] then [star]
   else escape Path path.
 
-(* goahttp ensureContext (before routing): RawPath when set, else Path *)
+(* http/middleware.SmartRedirectSlashes: RawPath when set, else Path (no "" -> "/" step) *)
 Definition match_path (path raw : bstr) : bstr := if is_nil raw then path else raw.
 
 (* chi Mux.routeHTTP: the string that is routed *)
@@ -483,8 +483,8 @@ Section Dispatch.
 
   (* goahttp ensureContext: the context to read from. When the request's context has no
      pattern yet (a middleware running before chi routed) a SCRATCH context is matched, on
-     RawPath when set, else Path (no "" -> "/" step here); the request's own context is
-     never written *)
+     the string chi routes (RawPath when set, else Path, "" as "/"); the request's own
+     context is never written *)
   Definition ensure_context (m : mux) (c : cctx) (me : method) (mp : bstr) : cctx * bool :=
     if negb (is_nil (route_pattern c)) then (c, true)
     else match find_route m ctx0 me mp with
@@ -522,9 +522,9 @@ Section Dispatch.
     (resolve_pattern m ctx0 me mp, vars m ctx0 me mp).
 
   (* ---- http/middleware.SmartRedirectSlashes mounted with Use ----
-     On the DECODED URL.Path (not RawPath): when the path (longer than "/") matches no route
-     of the method but does with its trailing slash toggled, answer 301 to "//host"+that path;
-     otherwise call next. It matches on fresh chi contexts: nothing else changes. *)
+     On the string chi routes, short of the "" -> "/" step (RawPath when set, else Path): when
+     it is longer than "/", matches no route of the method but does with its trailing slash
+     toggled, answer 301 to "//host"+that string; otherwise call next. It matches on fresh chi contexts: nothing else changes. *)
   Definition toggle_slash (p : bstr) : bstr :=
     match rev p with
     | c :: r => if Byte.eqb c slash then rev r else p ++ [slash]
@@ -547,15 +547,16 @@ Section Dispatch.
     match set_path wire with
     | None => None
     | Some (path, raw) =>
-      let mp := match_path path raw in
-      if smart_redirects m me path then
+      let mp := route_path path raw in
+      let sp := match_path path raw in
+      if smart_redirects m me sp then
         Some {| o_ran := rec_ids (before_smart (mws m));
                 o_pre := repeat (pre_answer m me mp) (asking (before_smart (mws m)) pre);
-                o_out := Redirected (hex_escape_non_ascii (toggle_slash path));
+                o_out := Redirected (hex_escape_non_ascii (toggle_slash sp));
                 o_post := resolve_pattern m ctx0 me mp |}
       else
       let pres := repeat (pre_answer m me mp) (asking (mws m) pre) in
-      match find_route m ctx0 me (route_path path raw) with
+      match find_route m ctx0 me mp with
       | (c2, Some r) =>
         Some {| o_ran := rec_ids (mws m); o_pre := pres;
                 o_out := Handled (r_h r) (vars m c2 me mp) (resolve_pattern m c2 me mp);
